@@ -169,7 +169,9 @@ func ComputeWebBundleSha512(bundleFile io.ReadSeeker, offset int64) ([]byte, err
 	h := sha512.New()
 
 	// Move the file pointer to the start of the web bundle bytes.
-	bundleFile.Seek(offset, io.SeekStart)
+	if _, err := bundleFile.Seek(offset, io.SeekStart); err != nil {
+		return nil, err
+	}
 
 	// io.Copy() will do chunked read/write under the hood
 	_, err := io.Copy(h, bundleFile)
